@@ -89,6 +89,10 @@ def cases(tier, seed):
             out.append(dict(part="probe", chunksize=c, n=n, size=size, seed=12345, attrs="wz"))
     for reps, c in itertools.product((2, 3), (2, None)):
         out.append(dict(part="refrom", reps=reps, chunksize=c, n=5, seed=7))
+    # the data-frame form of a draw: same points as the direct call from the same generator state, in either unit
+    for win, attrs, degrees, n in itertools.product(("box", "scap", "wrap"), ("", "wz"), (True, False, None), (1, 6)):
+        if win in WINDOWS:
+            out.append(dict(part="dataframe", window=win, attrs=attrs, degrees=degrees, n=n))
     return out
 
 
@@ -385,6 +389,37 @@ def run_uniform(case):
     return v, True
 
 
+def run_dataframe(case):
+    win, attrs, n = case["window"], case["attrs"], case["n"]
+    kw = {} if case["degrees"] is None else dict(degrees=case["degrees"])
+    in_degrees = case["degrees"] is not False  # the documented default is degrees
+    want = make_gen(win, attrs, 99)(n)
+    gen = make_gen(win, attrs, 99)
+    df = gen.generate_dataframe(n, **kw)
+    v = []
+    if len(df) != n:
+        v.append(dict(signature="C16/dataframe/length", what=f"{len(df)} rows for a draw of {n}"))
+        return v, True
+    names = set(df.columns)
+    if names != set(want.dtype.names):
+        v.append(dict(signature="C16/dataframe/columns", what=f"columns {sorted(names)}, the draw has {want.dtype.names}"))
+        return v, True
+    for col in want.dtype.names:
+        expect = want[col]
+        if col in ("ra", "dec") and in_degrees:
+            expect = np.rad2deg(expect)
+        got = np.asarray(df[col])
+        if not np.allclose(got, expect, rtol=1e-14, atol=0):
+            v.append(dict(signature=f"C16/dataframe/{col}/{'deg' if in_degrees else 'rad'}",
+                          what=f"column {col} of generate_dataframe({n}, {kw}) is {got[:3]}, the same draw gives {expect[:3]}"))
+    again = gen(n)
+    after = make_gen(win, attrs, 99)
+    after(n)
+    if not np.array_equal(again, after(n)):
+        v.append(dict(signature="C16/dataframe/stream", what="a data-frame draw does not advance the generator like a direct draw"))
+    return v, True
+
+
 def run_refrom(case):
     from yaw import AngularCoordinates, Catalog
 
@@ -403,7 +438,7 @@ def run_refrom(case):
 
 
 def run_case(case):
-    fn = dict(catalog=run_catalog, history=run_history, uniform=run_uniform, refrom=run_refrom, probe=run_probe, rows=run_rows, reseed=run_reseed)[case["part"]]
+    fn = dict(dataframe=run_dataframe, catalog=run_catalog, history=run_history, uniform=run_uniform, refrom=run_refrom, probe=run_probe, rows=run_rows, reseed=run_reseed)[case["part"]]
     viols, nontrivial = fn(case)
     res = dict(nontrivial=bool(nontrivial), key=case)
     if viols:
